@@ -126,6 +126,8 @@ pub fn c09(ctx: &mut Ctx) -> R {
     let mut out = vec![0u8; 4096];
     let mut followed = false;
     let mut produced_new_flow = false;
+    let mut interim_repolled = false;
+    let mut asked_new_flow = false;
     let mut new_flow_cfg: Option<(String, bool)> = None; // (method, body due) of the flow produced by as_new_flow
     let mut stop_flag = false;
     let mut await_ambiguous = false;
@@ -522,6 +524,16 @@ pub fn c09(ctx: &mut Ctx) -> R {
             // ================================================================ RecvResponse
             FlowSt::RecvResponse(mut f) => {
                 let ready = lib("Flow<RecvResponse>::can_proceed", || f.can_proceed());
+                if interim_repolled && !ready {
+                    // the head handed out was a 1xx one and the caller has offered later bytes since:
+                    // whether the flow still counts that head as its response is not decided by any
+                    // statement; an implementation that waits for the next head ends the walk here
+                    ctx.count("p:interim_head_withdrawn");
+                    let adv = lib("Flow<RecvResponse>::proceed", || f.proceed());
+                    ensure!(adv.is_none(), "C09.readiness", "RecvResponse.proceed() advanced although can_proceed() was false");
+                    ctx.nontrivial = true;
+                    return Ok(());
+                }
                 if ready != got_final {
                     fail!("C09.readiness", "RecvResponse", "RecvResponse.can_proceed() = {} but a final response has {}been returned", ready, if got_final { "" } else { "not " });
                 }
@@ -532,6 +544,9 @@ pub fn c09(ctx: &mut Ctx) -> R {
                         ctx.ev(|| format!("RecvResponse.try_response(window={}) -> {}", w.len(), match &r { Ok((n, Some(x))) => format!("Ok(({}, Some({})))", n, x.status().as_u16()), Ok((n, None)) => format!("Ok(({}, None))", n), Err(e) => format!("Err({})", err_name(e)) }));
                         if got_final {
                             ctx.count("p:repeat_try_response");
+                            if !w.is_empty() && (101..200).contains(&plan.head.status) {
+                                interim_repolled = true;
+                            }
                             // the first response stands; whatever a repeated call says, it may not panic
                             st = FlowSt::RecvResponse(f);
                             // a repeated call parses the next message in the window: stop the walk here,
@@ -697,13 +712,14 @@ pub fn c09(ctx: &mut Ctx) -> R {
                     2 | 3 | 4 => {
                         let pol = if ctx.flip() { RedirectAuthHeaders::Never } else { RedirectAuthHeaders::SameHost };
                         let has_loc = !plan.head.get_all("location").is_empty();
-                        let site = if produced_new_flow { "repeat_Flow<Redirect>::as_new_flow" } else { "Flow<Redirect>::as_new_flow" };
+                        let site = if produced_new_flow || asked_new_flow { "repeat_Flow<Redirect>::as_new_flow" } else { "Flow<Redirect>::as_new_flow" };
                         let r = lib(site, || f.as_new_flow(pol));
                         ctx.ev(|| format!("Redirect.as_new_flow({:?}) -> {}", pol, match &r { Ok(Some(_)) => "Ok(Some(flow))".to_string(), Ok(None) => "Ok(None)".to_string(), Err(e) => format!("Err({})", err_name(e)) }));
-                        if produced_new_flow {
+                        if produced_new_flow || asked_new_flow {
                             ctx.count("p:repeat_as_new_flow");
-                            // only "does not panic" is demanded of a repeated call
+                            // only "does not panic" is demanded of a repeated call, whatever the first answered
                         } else {
+                            asked_new_flow = true;
                             let cur_method = cfg.method.as_str();
                             match r {
                                 Ok(Some(nf)) => {
